@@ -61,6 +61,9 @@ def do_replay(prop, path):
     elif rp.get("kind") == "namemap":
         from vf.e1.hier_jobs import replay_namemap
         viol, txt = replay_namemap(rp)
+    elif rp.get("kind") == "connect_two_models":
+        from vf.e1.eblif_jobs import replay_connect_two_models
+        viol, txt = replay_connect_two_models(rp)
     elif rp.get("kind") == "uniquify":
         from vf.e1.flatten_jobs import replay_uniquify
         viol, txt = replay_uniquify(rp)
